@@ -341,13 +341,20 @@ func Mkdir(p string, perm FileMode) error {
 	return os.Mkdir(p, perm)
 }
 
-func Chmod(name string, m FileMode) error           { return os.Chmod(name, m) }
-func Readlink(name string) (string, error)          { return os.Readlink(name) }
-func ReadDir(name string) ([]DirEntry, error)       { return os.ReadDir(name) }
-func IsNotExist(err error) bool                     { return os.IsNotExist(err) }
-func IsExist(err error) bool                        { return os.IsExist(err) }
-func IsPermission(err error) bool                   { return os.IsPermission(err) }
-func Getenv(k string) string                        { return os.Getenv(k) }
+func Chmod(name string, m FileMode) error     { return os.Chmod(name, m) }
+func Readlink(name string) (string, error)    { return os.Readlink(name) }
+func ReadDir(name string) ([]DirEntry, error) { return os.ReadDir(name) }
+func IsNotExist(err error) bool               { return os.IsNotExist(err) }
+func IsExist(err error) bool                  { return os.IsExist(err) }
+func IsPermission(err error) bool             { return os.IsPermission(err) }
+func Getenv(k string) string {
+	// a goroutine label "env:<KEY>" overrides the process environment (each
+	// in-process server of a harness is its own machine)
+	if v := vrt.Label("env:" + k); v != "" {
+		return v
+	}
+	return os.Getenv(k)
+}
 func LookupEnv(k string) (string, bool)             { return os.LookupEnv(k) }
 func Setenv(k, v string) error                      { return os.Setenv(k, v) }
 func Hostname() (string, error)                     { return os.Hostname() }
